@@ -16,6 +16,7 @@ EXPLANATION = ("must-dominate with polarity, who-may-call and table-agreement ru
 ASSUMPTIONS = ["not decided: granted <=> first_match.permits over all address/rule combinations (only the comparison shape, not its "
                "arithmetic for every prefix length)",
                "the manual's `http-ro` alias is documented as metrics+leases while parse_acl and the defaults also grant `http`: tolerated"]
+EXPLANATION += '; also: the permission table is checked over reads of the flags per arm with the polarity of the decision; only an absent subnet list matches everyone (chain and match forms); the address tested is the peer address as the socket reported it; default ACLs only when no list was configured'
 EXTRA_CONFIGS = ["dns"]
 
 
